@@ -1175,10 +1175,14 @@ class Interp:
             return [(NORMAL, st)]
         results = []
         raised = []
-        for value, s in self.eval_test(stmt.test, st, fr, raised, record='assert'):
+        outcomes = list(self.eval_test(stmt.test, st, fr, raised, record='assert'))
+        # (whether what is known on this path decides the assertion: rules about steps that
+        # must not be skipped ask for it)
+        could_fail = any(value is False for value, _s in outcomes)
+        for value, s in outcomes:
             if value is False:
                 continue  # a failing kernel assertion is a guard, not an exit (rule D)
-            self._emit(s, 'assert', stmt, fr)
+            self._emit(s, 'assert', stmt, fr, could_fail=could_fail)
             results.append((NORMAL, s))
         return results + raised
 
